@@ -23,6 +23,15 @@ class C13(vlib.PropertyCheck):
     assumptions = ['inputs are valid C strings in exactly sized heap blocks (the harness allocates them so)',
                    'object sizes below 2^31', '"C" locale character classes']
 
+    MANIFEST = dict(
+        technique='Rocq theorems about an executable Gallina model of the helpers + extracted-model/implementation correspondence check',
+        text=('Exactness and frame theorems (all sizes, sources, prior destination contents, index/count values of either sign, all '
+              'byte strings) proved in Rocq about Gallina mirrors of spiftool_safe_strncpy/strncat/substr/downcase/upcase/safe_str; '
+              'chomp, condense_whitespace and strrev are modelled and tied by the correspondence check. The model is tied to the '
+              'current tree by running its extracted OCaml form and the ASan build of src/strings.c on the same exhaustively enumerated '
+              'small cases plus random long strings; a mismatch on an observable the property constrains is a failing input.'),
+        design_ref='DESIGN.md section 7, C13')
+
     def gen(self, tier, rng):
         cases = []
         maxlen = 4 if tier == 'quick' else 6
